@@ -74,11 +74,12 @@ Definition c16_model (input : hexs) : N * bytes :=
   end.
 
 (* several files: the main file and the files beside it *)
-Definition c16fcase := (hexs * list (hexs * hexs) * c16obs)%type.
+(* [deps]: the observed Struct.DependModule / Interface.DependModule (the generated imports), per struct then interface *)
+Definition c16fcase := (hexs * list (hexs * hexs) * c16obs * list (list hexs))%type.
 Definition c16_check_fs (c : c16fcase) : bool :=
-  let '(input, files, obs) := c in
+  let '(input, files, obs, deps) := c in
   match parse_fs (unhex input) (map (fun p => (unhex (fst p), unhex (snd p))) files), obs with
-  | FOk t, COk h => beq (ser_module (pt_mod t)) (unhex h)
+  | FOk t, COk h => beq (ser_module (pt_mod t)) (unhex h) && deps_eqb (model_deps (pt_mod t)) (map (map unhex) deps)
   | FMulti, (CMulti | CErr) => true
   | FErr, CErr => true
   | FFuel, CHang => true
